@@ -403,6 +403,47 @@ def rule_r11_notnone(ctx, prog, rule="R11"):
 
 # ------------------------------------------------------------------------------------- R14
 
+def _draw_uses(b, bb, me, arr):
+    """every use of the drawn value `me` in body b: (all uses are the pivot argument of partition_mut on `arr`, count)"""
+    uses_ok = True
+    n_uses = 0
+
+    def flows(a):
+        """direct data flow of the drawn value (not through partition_mut's own result)"""
+        a = strip(a)
+        if a is me or a == me:
+            return True
+        if not isinstance(a, tuple):
+            return False
+        if a[0] == "call":
+            if a[1] == "partition_mut":
+                return False
+            return any(flows(x) for x in a[3])
+        if a[0] == "agg":
+            return any(flows(x) for x in a[3])
+        if a[0] == "binop":
+            return flows(a[2]) or flows(a[3])
+        if a[0] in ("unop", "cast"):
+            return flows(a[2])
+        if a[0] in ("field", "downcast", "index", "discr"):
+            return flows(a[1])
+        return False
+    for cbb, ct in b.calls():
+        if cbb == bb:
+            continue
+        for ai, a in enumerate(b.call_arg_exprs(cbb)):
+            if flows(a):
+                n_uses += 1
+                if not (callee_name(ct) == "partition_mut" and ai == 1 and strip(a) == me and
+                        strip(b.call_arg_exprs(cbb)[0]) == arr):
+                    uses_ok = False
+    for sbb in b.live_blocks():
+        st = b.term(sbb)
+        if st["k"] == "switch" and flows(b.switch_discr_expr(sbb)):
+            uses_ok = False
+    return uses_ok, n_uses
+
+
 def rule_r14(ctx, prog, rule="R14"):
     """randomness only feeds partition_mut's pivot argument, range 0..len of the same array"""
     n = 0
@@ -424,54 +465,39 @@ def rule_r14(ctx, prog, rule="R14"):
             if nm == "gen_range":
                 args = b.call_arg_exprs(bb)
                 rng = strip(args[1])
-                ok_range = False
-                arr = None
+                me = b.call_expr(bb)
+                lo = hi = None
                 if isinstance(rng, tuple) and rng[0] == "agg" and rng[1] == "std::ops::Range":
                     lo, hi = strip(rng[3][0]), strip(rng[3][1])
-                    if lo[0] == "const" and lo[2] == 0 and isinstance(hi, tuple) and hi[0] == "call" and hi[1] == "len":
+                lo_ok = lo is not None and lo[0] == "const" and lo[2] == 0
+                # a private helper `fn draw(n) -> usize { rng.gen_range(0..n) }`: judge its call sites instead
+                sites = [(b, bb, me, hi)]
+                via = ""
+                if lo_ok and isinstance(hi, tuple) and hi[0] == "param" and not b.key.endswith("partition_mut"):
+                    rets = [strip(b.def_expr(0, dd)) for dd in b.reaching_defs(0, b.exits()[0], "term")] if b.exits() else []
+                    callers = prog.callers().get(b.key, [])
+                    if rets and all(r is me or r == me for r in rets) and callers and "{closure" not in b.key:
+                        sites = []
+                        via = " (through the helper `%s`)" % short(b.key)
+                        for (cb_, cbb_) in callers:
+                            cargs = cb_.call_arg_exprs(cbb_)
+                            sites.append((cb_, cbb_, cb_.call_expr(cbb_), strip(cargs[hi[1] - 1]) if hi[1] - 1 < len(cargs) else None))
+                ok = lo_ok
+                why = ""
+                for (sb, sbb, sme, shi) in sites:
+                    in_sort_site = sb.key.startswith("sort::") or " as sort::Sort1dExt<" in sb.key
+                    arr = None
+                    ok_range = False
+                    if isinstance(shi, tuple) and shi[0] == "call" and shi[1] == "len":
                         ok_range = True
-                        arr = strip(hi[3][0])
-                # every use of the result: pivot argument of partition_mut on the same array
-                uses_ok = True
-                n_uses = 0
-                me = b.call_expr(bb)
-                def flows(a):
-                    """direct data flow of the drawn value (not through partition_mut's own result)"""
-                    a = strip(a)
-                    if a is me or a == me:
-                        return True
-                    if not isinstance(a, tuple):
-                        return False
-                    if a[0] == "call":
-                        if a[1] == "partition_mut":
-                            return False
-                        return any(flows(x) for x in a[3])
-                    if a[0] == "agg":
-                        return any(flows(x) for x in a[3])
-                    if a[0] == "binop":
-                        return flows(a[2]) or flows(a[3])
-                    if a[0] in ("unop", "cast"):
-                        return flows(a[2])
-                    if a[0] in ("field", "downcast", "index", "discr"):
-                        return flows(a[1])
-                    return False
-                for cbb, ct in b.calls():
-                    if cbb == bb:
-                        continue
-                    for ai, a in enumerate(b.call_arg_exprs(cbb)):
-                        if flows(a):
-                            n_uses += 1
-                            if not (callee_name(ct) == "partition_mut" and ai == 1 and strip(a) == me and
-                                    strip(b.call_arg_exprs(cbb)[0]) == arr):
-                                uses_ok = False
-                for sbb in b.live_blocks():
-                    st = b.term(sbb)
-                    if st["k"] == "switch" and flows(b.switch_discr_expr(sbb)):
-                        uses_ok = False
-                ok = ok_range and uses_ok and n_uses >= 1
+                        arr = strip(shi[3][0])
+                    uses_ok, n_uses = _draw_uses(sb, sbb, sme, arr)
+                    if not (in_sort_site and ok_range and uses_ok and n_uses >= 1):
+                        ok = False
+                        why = "in `%s`: range upper bound `%s`, %d use(s)" % (short(sb.key), fmt(shi) if shi is not None else "?", n_uses)
                 ctx.ob(rule, "%s/gen_range" % short(b.key), ok, b.where(bb, "term"),
-                       "pivot drawn from 0..len(array) and used only as partition_mut's pivot on that array" if ok else
-                       "random value has range `%s` / flows somewhere other than the pivot argument of partition_mut" % fmt(rng),
+                       "pivot drawn from 0..len(array) and used only as partition_mut's pivot on that array%s" % via if ok else
+                       "random value has range `%s` / flows somewhere other than the pivot argument of partition_mut %s" % (fmt(rng), why),
                        what="randomness influences more than the pivot")
                 continue
             ctx.ob(rule, "%s/%s" % (short(b.key), nm), False, b.where(bb, "term"), "unexpected rand API `%s`" % nm, what="randomness")
